@@ -5,13 +5,14 @@
 From AV Require Export Model.Diff.
 
 (* what include_object is shown: the object itself (name and type_ are functions of it) *)
-Inductive obj := OTable (t:table) | OColumn (tn:N) (c:col) | OCons (tn:N) (k:cons).
+Inductive obj := OTable (t:table) | OColumn (tn:N) (c:col) | OCons (tn:N) (k:cons) | OFk (tn:N) (f:fk).
 (* what include_name is shown: (name, type_, parent_names); also used to name an object *)
-Inductive nref := NSchema | NTable (t:N) | NColumn (t c:N) | NUq (t n:N) | NIx (t n:N).
+Inductive nref := NSchema | NTable (t:N) | NColumn (t c:N) | NUq (t n:N) | NIx (t n:N) | NFk (t n:N).
 
 Definition kref (tn:N) (k:cons) : nref := if is_ix k then NIx tn (k_name k) else NUq tn (k_name k).
 Definition obj_ref (o:obj) : nref :=
-  match o with OTable t => NTable (t_name t) | OColumn tn c => NColumn tn (c_name c) | OCons tn k => kref tn k end.
+  match o with OTable t => NTable (t_name t) | OColumn tn c => NColumn tn (c_name c) | OCons tn k => kref tn k
+             | OFk tn f => NFk tn (f_name f) end.
 
 (* one filter invocation, as the harness can observe it: include_name(name,type_,parents) or
    include_object(object, name, type_, reflected, compare_to) reduced to (type_+names, reflected, compare_to is not None) *)
@@ -81,6 +82,23 @@ Section Filters.
     ++ flat_map (fun mk => if memN (k_name mk) (keys k_name conn_cons) then []
                            else obj_added_f tn supports_unique_constraints cod mk) metadata_cons.
 
+  (* ------------------------------------------------------------ _compare_foreign_keys *)
+  Definition ffks (tn:N) (fs:list fk) : list fk := filter (fun f => iname (NFk tn (f_name f))) fs.
+  Definition compare_foreign_keys_f (tn:N) (conn_table metadata_table:option table) : list op :=
+    match conn_table, metadata_table with
+    | Some c, Some m =>
+        let conn_fks := ffks tn (t_fks c) in
+        (* _remove_fk(const, compare_to = the metadata key of the same name, if any) *)
+        flat_map (fun cf => if existsb (fk_sig_eqb cf) (t_fks m) then []
+                            else if io (OFk tn cf) true (option_map (OFk tn) (kfind f_name (f_name cf) (t_fks m)))
+                                 then [OpDropFk tn (f_name cf)] else []) conn_fks
+        (* _add_fk(const, compare_to = the reflected key of the same name, if any) *)
+        ++ flat_map (fun mf => if existsb (fk_sig_eqb mf) conn_fks then []
+                               else if io (OFk tn mf) false (option_map (OFk tn) (kfind f_name (f_name mf) conn_fks))
+                                    then [OpAddFk tn mf] else []) (t_fks m)
+    | _, _ => []
+    end.
+
   (* ------------------------------------------------------------ _compare_tables *)
   Definition added_table_f (m:table) : list op :=
     OpCreateTable (create_table_of m) :: compare_indexes_and_uniques_f (t_name m) None (Some m).
@@ -89,6 +107,7 @@ Section Filters.
   Definition existing_table_f (g:cfg) (c m:table) : list op :=
     compare_columns_pre_f g (t_name m) c m
     ++ compare_indexes_and_uniques_f (t_name m) (Some c) (Some m)
+    ++ compare_foreign_keys_f (t_name m) (Some c) (Some m)
     ++ compare_columns_post_f (t_name m) c m.
 
   Definition compare_tables_f (g:cfg) (conn meta:schema) : list op :=
@@ -143,6 +162,14 @@ Section Filters.
                            | None => [] end) metadata_cons
     ++ flat_map (fun mk => if memN (k_name mk) (keys k_name conn_cons) then [] else calls_added tn sup cod mk) metadata_cons.
 
+  Definition calls_fks (tn:N) (c m:table) : list tcall :=
+    let conn_fks := ffks tn (t_fks c) in
+    map (fun f => TN (NFk tn (f_name f))) (t_fks c)
+    ++ flat_map (fun cf => if existsb (fk_sig_eqb cf) (t_fks m) then []
+                           else [tO (OFk tn cf) true (option_map (OFk tn) (kfind f_name (f_name cf) (t_fks m)))]) conn_fks
+    ++ flat_map (fun mf => if existsb (fk_sig_eqb mf) conn_fks then []
+                           else [tO (OFk tn mf) false (option_map (OFk tn) (kfind f_name (f_name mf) conn_fks))]) (t_fks m).
+
   Definition calls_f (conn0 meta:schema) : list tcall :=
     let conn := ftables conn0 in
     TN NSchema :: (if iname NSchema then map (fun c => TN (NTable (t_name c))) conn0 else [])
@@ -156,7 +183,7 @@ Section Filters.
                           | Some c => tO (OTable m) false (Some (OTable c)) ::
                                       (if io (OTable m) false (Some (OTable c))
                                        then calls_columns_pre (t_name m) c m ++ calls_ciu (t_name m) (Some c) (Some m)
-                                            ++ calls_columns_post (t_name m) c m
+                                            ++ calls_fks (t_name m) c m ++ calls_columns_post (t_name m) c m
                                        else [])
                           | None => [] end) meta.
 End Filters.
